@@ -152,7 +152,13 @@ def gen_dst(rng, src, opts):
             # a stale link: dangling, or pointing at a DIRECTORY outside both roots / at the source root / inside the source
             # (seeded change C02b: a delete that walks into what the link points to)
             sdirs = [r for r, n in src.items() if n["k"] == "d"]
-            dst[rel] = L(rng.pick(["nowhere", "@OUT@", "@SRC@"] + (["@SRC@/" + rng.pick(sdirs)] if sdirs else [])))
+            if rel.endswith(".sy.tmp") and rng.chance(2, 3):
+                # a DANGLING link bearing a working-file name and pointing out of the destination — into the outside area or into the
+                # source (seeded change C02d: a leftover that `exists()` does not see is not removed and the working file is created
+                # through it)
+                dst[rel] = L(rng.pick(["@OUT@/ghost", "@SRC@/ghost", "../out/ghost2"]))
+            else:
+                dst[rel] = L(rng.pick(["nowhere", "@OUT@", "@SRC@"] + (["@SRC@/" + rng.pick(sdirs)] if sdirs else [])))
         else: dst[rel] = F(rng.bytes(rng.range(0, 50)))
     return dst
 
@@ -307,6 +313,22 @@ def run(tier="quick", seed=1, work=None, replay=None, focus="C01", ncases=None):
                 stale_dir_named_like_working_file(rep, contents, ci, seed, work, rng)
             if focus == "C07" and ci % 2 == 0:
                 src, dst, flags, cfg, env, excl, cls = gen_c07_case(rng); rep.tag("c07." + cls)
+            elif focus in ("C02", "C05", "C09") and ci % 15 == 4:
+                # targeted (seeded change C02d; repo fix d0ec669): a DANGLING symlink bearing the working-file name of a file that is updated
+                # through the block-delta route, pointing out of the destination — into the outside area, into the source.  It is a leftover
+                # to be removed, never a path to create the working file through.
+                flags, cfg, opts, env, excl = gen_flags(rng, "plain", caps)
+                flags = [x for x in flags]; excl = []
+                while "--exclude" in flags: i_ = flags.index("--exclude"); del flags[i_:i_ + 2]
+                for k_ in ("min", "max"):
+                    fl_ = "--%s-size" % k_
+                    if fl_ in flags: i_ = flags.index(fl_); del flags[i_:i_ + 2]; cfg.pop(k_, None)
+                env = {"SY_VERIF_DELTA_THRESHOLD": "4096", "SY_VERIF_BLOCK_SIZE": "1024"}
+                d1 = rng.bytes(4096) * 3; d2 = rng.bytes(4096) * 2
+                src = {"big.bin": F(d1, BASE_T * 10**9 + 90 * 10**9), "sub": D(), "sub/other.dat": F(d2, BASE_T * 10**9 + 90 * 10**9)}
+                dst = {"big.bin": F(d1[:5000] + bytes([d1[5000] ^ 0xFF]) + d1[5001:]), "big.bin.sy.tmp": L(rng.pick(["@OUT@/ghost", "@SRC@/ghost"])),
+                       "sub": D(), "sub/other.dat": F(d2[:100] + bytes([d2[100] ^ 0xFF]) + d2[101:]), "sub/other.dat.sy.tmp": L(rng.pick(["../../out/ghost2", "@SRC@/sub/ghost3"]))}
+                rep.tag("targeted.dangling-link-at-working-file-name")
             elif focus in ("C01", "C10", "C19") and ci % 25 == 17:
                 # targeted (seeded change C10d): a regular FILE in the destination where the source has an EMPTY directory, and nothing else
                 # that could fail — the creation of the directory must fail visibly (exit non-zero, an error record), never "succeed" because
